@@ -75,6 +75,13 @@ var propSpecs = map[string]*PropSpec{
 		Technique: "contract-based deductive verification of the two sides of a rely/guarantee argument: writers guarantee (proved on the real bodies) that the log only ever grows by one write of whole newline-terminated lines, or is replaced by the rename of a complete, durable file; readers (list, show, where) are proved to take no lock, never to block and to write nothing; what a lock-free reader makes of a log that is being extended - any byte prefix - is the BOUNDED stand-in on the real readEvents (every byte prefix of 40 logs reads without error as the events of its complete lines). The probe-before-scan race in readEvents was a genuine defect (repaired, forced schedule replayed with strace)",
 		Assume:    append([]string{"interleavings are not enumerated: by the writers' guarantee every state a reader can observe is a byte prefix of some log the store passed through (append path) or a complete old/new file (rename path); that a reader observing the first lines of a multi-line write sees a state between two events of one command is inherent to lock-free reads and is NOT excluded"}, crashAssume...),
 	},
+	"C05": {
+		ID: "C05", Exclude: jsonLabels, Title: "compact changes nothing a reader can see",
+		Funcs:     cat([]string{"compactEvents", "sortedTasks$1", "sortedTasks", "sortedMapKeys", "sortedKeys", "RunCompact$1", "RunCompact", "newEvent"}, storageFuncs, lockFuncs, replayFuncs),
+		Bounded:   []string{"compactRoundTrip"},
+		Technique: "contract-based deductive verification of what compactEvents emits, on its real body (four loops): per live item, in id order, a create event carrying id, uuid, kind and the CREATED epic/state/title/body, followed by a group of at most five events whose fold under the replay step semantics (the very functions evState/evClaim/evTitle/evBody/evEpic that one iteration of the real replay loop is proved to implement) yields the item's current state, claimant (given the claim invariant), title, body and epic; then its results oldest first, field by field; earlier groups stay untouched; one depends-link event per dependency pair; the section holds the exclusive lock and replaces the log by one durable rename. The induction that replaying those groups in order restores every item is not carried out by the generator: it is exercised by a BOUNDED end-to-end round trip",
+		Assume:    []string{"composition (induction over the emitted groups; groups of different ids do not interfere because every step clause leaves other ids untouched) is argued, not machine-checked; it is exercised by the BOUNDED stand-in compactRoundTrip: 400 (thorough 4000) seeded histories of 10..34 real commands (create, set state/claim/title/body/epic, result, link/unlink, prune) - snapshot of every observable field, ready/blocked flags and claim order before compaction, after it, and after a second compaction", "timestamps (created/updated/claimed-at) are covered by the bounded part only; the claimant clause assumes the claim invariant of C06 (a done/todo/canceled item is unclaimed)", "tombstones are dropped by compaction as documented (docs/spec.md, Post-compact behavior): `pruned ids stay absent` is proved in the sense that no event mentions an id outside graph.Tasks"},
+	},
 	"C06": {
 		ID: "C06", Exclude: cat(txLabels, jsonLabels), Title: "State machine and claim invariants hold on every path",
 		Funcs:     cat([]string{"validateTransition", "validateClaimInvariant", "newEvent", "buildSetEvents", "applySetUpdates$1", "RunClaimOldestReady$1", "createTaskWithDir$1"}, readyFuncs, replayFuncs),
